@@ -63,6 +63,12 @@ impl Binder {
             .catalog
             .get_schema_by_name(schema_name)
             .ok_or_else(|| ErrorKind::InvalidSchema(schema_name.into()).with_spanned(&name))?;
+        // Table ids are per schema, but the storage engines identify a table's data by the bare
+        // table id: a user table in the system schema would share the row-sets of a table of the
+        // default schema (dropping the one emptied the other).
+        if schema.id() == crate::catalog::RootCatalog::SYSTEM_SCHEMA_ID {
+            return Err(ErrorKind::InvalidSchema(schema_name.into()).with_spanned(&name));
+        }
         if schema.get_table_by_name(table_name).is_some() {
             return Err(ErrorKind::TableExists(table_name.into()).with_spanned(&name));
         }
